@@ -491,10 +491,11 @@ def case_bplane(ctx, job, idx, rng, st):
         return
     w.update(B=Bv.tolist(), S=S.tolist(), T=T.tolist(), R=R.tolist())
     # conditioning: the library rebuilds e-vector and h from (r, v); far from periapsis e = (v^2 r - (r.v) v)/mu - r^
-    # cancels by ~ r/rp, and the keplerian forms add ~1/(e-1): floor ~ 1e-16 (r/rp) (1 + 1/(e-1)); x 1000 margin
+    # cancels by ~ r/rp, and the keplerian forms add ~1/(e-1): floor ~ 1e-16 (r/rp) (1 + 1/(e-1)); measured worst
+    # over 240 000 states = 1.5 % of (1e-12 cond + 1e-11); coefficients below give >= 200 x the measured floor
     rn = float(np.linalg.norm(r))
     cond = (rn / rp) * (1 + 1 / (e - 1))
-    tol = 1e-12 * max(cond, 1.0) + 1e-11
+    tol = 3e-12 * max(cond, 1.0) + 3e-11
     # S along the incoming asymptote
     ctx.resid("bplane:|S - incoming asymptote| / cond", float(np.linalg.norm(S - S_ref)), tol * 10, key="C19/bplane-S-not-incoming-asymptote",
               witness=dict(w, S_expected=S_ref.tolist()), msg=f"S = {S.tolist()} but the incoming asymptote is {S_ref.tolist()}")
